@@ -52,6 +52,11 @@ CLAIMS["C11"] = ("who-may-write analysis of node storage (field-write effects wi
  "Trusted: go/ssa + go/types, io.Seeker semantics. Not covered: aliasing of caller-supplied byte slices (excluded by the property), user mutation of bound Go values, concurrent reads of reader-backed bytes nodes.",
  "DESIGN.md section 3, C11")
 
+CLAIMS["C01"] = ("sibling/exhaustiveness analysis over all Node implementations (constant Kind(), error-type summaries through delegation), AST kind-switch exhaustiveness, paired-write and write-back path rules",
+ "Structural necessary conditions of 'what is built is what is read back': for every Node type with constant Kind() every kind-inappropriate accessor returns a non-nil ErrWrongKind on every path and reaches no panic, wrong-kind iterators return nil, Length of scalars is -1; generic kind dispatches with an erroring default list all nine kinds; every Kind_Int arm of the generic algorithms probes UintNode; basicnode's map writes table value and lookup index together; child container assemblers write their node back into the parent on every successful Finish. Not equality of contents, order or lengths as values.",
+ "Trusted: go/ssa + go/types. Not covered: equality of contents and order, Length vs iteration agreement as numbers, AssignNode/Copy content fidelity, size-hint independence, types with dynamic Kind().",
+ "DESIGN.md section 3, C01")
+
 NOT_APPLICABLE = {
  "C13": "concerns the output of running the code generator on arbitrary schemas and the run-time equivalence of two engines; the generator's logic lives in text/template strings, so no typed program exists to analyse before execution (DESIGN.md section 4)",
 }
